@@ -202,7 +202,7 @@ def check(repo, res, tier):
     res.rule("R-NUM(value)", "kernel built by its real constructor for every spread form: loss == minus the summed reference log-density at concrete points")
     res.rule("R-NUM(d1)", "... diff_loss == first derivative of the reference loss (central differences of the reference)")
     res.rule("R-NUM(d2)", "... diff2Loss == second derivative of the reference loss")
-    nk = KX.check_kernels(repo, res, KERNELS)
+    nk = KX.check_kernels(repo, res, KERNELS, tier=tier)
     res.floor("constructed-kernel interpretations", nk, 200)
     _check_shape_inputs(repo, res)
     _check_dtype(repo, res)
